@@ -63,6 +63,7 @@ struct smtpcomm *current_command = &rx_command;
 static jmp_buf rx_die;
 static int rx_qinit_fail;
 static long rx_wfail, rx_wcount, rx_rfail, rx_rcount;
+static int rx_wferr = EPIPE;
 static const unsigned char *rx_stream; static size_t rx_slen, rx_spos;
 static const unsigned char *rx_cuts; static size_t rx_ncuts, rx_cut;
 
@@ -116,7 +117,7 @@ int queue_result(void)
 static ssize_t rxq_write(int fd, const void *buf, size_t n)
 {
 	if (fd < 0 || fd != queuefd_data) { hx_out_str(" QBADF"); errno = EBADF; return -1; }
-	if (rx_wcount++ == rx_wfail) { hx_out_str(" QFAIL"); errno = EPIPE; return -1; }
+	if (rx_wcount++ == rx_wfail) { hx_out_str(" QFAIL"); errno = rx_wferr; return -1; }
 	hx_out_str(" Q"); hx_out_hex(buf, n);
 	return n;
 }
@@ -144,6 +145,8 @@ ssize_t rx_read(int fd, void *buf, size_t n)
 ssize_t rx_netwrite(int fd, const void *buf, size_t n)
 {
 	(void)fd;
+	/* a reply folded by net_writen() into several lines ("250-..."): only its final line is reported */
+	if (n > 3 && ((const char *)buf)[3] == '-') return n;
 	hx_out_str(" N");
 	char c[4] = { 0, 0, 0, 0 };
 	memcpy(c, buf, n < 3 ? n : 3);
@@ -166,6 +169,9 @@ static const char *rc_name(int rc)
 	case EBADF: return "EBADF";
 	case EIO: return "EIO";
 	case E2BIG: return "E2BIG";
+	case ENOSPC: return "ENOSPC";
+	case EFBIG: return "EFBIG";
+	case ENOMEM: return "ENOMEM";
 	}
 	snprintf(b, sizeof(b), "%d", rc);
 	return b;
@@ -179,7 +185,7 @@ void rx_run_case(int nf, unsigned char **fp, size_t *fl)
 	rx_wfail = cfg[1] * 256 + cfg[2]; if (rx_wfail == 0xffff) rx_wfail = -1;
 	rx_rfail = cfg[3]; if (rx_rfail == 0xff) rx_rfail = -1;
 	maxbytes = ((size_t)cfg[4] << 24) | (cfg[5] << 16) | (cfg[6] << 8) | cfg[7];
-	rx_wcount = rx_rcount = 0;
+	rx_wcount = rx_rcount = 0; rx_wferr = EPIPE;
 	rx_stream = fp[3]; rx_slen = fl[3]; rx_spos = 0;
 	rx_cuts = nf > 4 ? fp[4] : NULL; rx_ncuts = nf > 4 ? fl[4] : 0; rx_cut = 0;
 
@@ -220,6 +226,119 @@ void rx_run_case(int nf, unsigned char **fp, size_t *fl)
 			int rc = smtp_bdat();
 			if (!rc && rx_command.state > 0) comstate = rx_command.state;
 			hx_out_str(" C"); hx_out_str(rc_name(rc));
+		}
+		hx_out_str(" END");
+	} else hx_out_str(" DIED");
+	hx_out_str(" lastcr="); hx_out_int(lastcr);
+	hx_out_str(" bdaterr="); hx_out_str(rc_name(bdaterr));
+	hx_out_str(" comstate="); hx_out_int((long)comstate);
+	hx_out_str(" rest="); hx_out_int((long)(rx_slen - rx_spos + rx_buffered()));
+	while (!TAILQ_EMPTY(&head)) {
+		struct recip *l = TAILQ_FIRST(&head);
+		TAILQ_REMOVE(&head, TAILQ_FIRST(&head), entries);
+		free(l->to.s); free(l);
+	}
+}
+
+/* ---- session scripts ----
+ *   bd <cfg> <script> <stream> [<cuts>]
+ *      cfg    = wf wf we rf mb mb mb mb : wf = index of the queue write() that fails (ffff never) with errno we
+ *               (0 EPIPE 1 ENOSPC 2 EFBIG 3 EMSGSIZE 4 E2BIG 5 ENOMEM 6 EIO); rf = index of the failing read(); mb = maxbytes
+ *      script = records  op pre pre len len <len octets>  (pre = octets put into the line reader's buffer first)
+ *               op 1: <octets> is a command line starting with "BDAT" (any case), given to the BDAT row of the dispatcher
+ *                     (stand-in for smtploop(): mask 0x0840, line length <= 510, flags 5: blank behind the name) and so to smtp_bdat()
+ *               op 2: RSET (stand-in for smtp_rset(): queue_reset() if comstate == 0x0800, freedata(), state 0x010, 250)
+ *               op 3: MAIL FROM + RCPT TO accepted (stand-in: allowed in state 0x010 only; one recipient; comstate 0x0040);
+ *                     <octets> = one flag octet: queue_init() of this transaction fails
+ *   -> events as for bb, plus B<n> (transaction begins after n stream octets were consumed), RSET
+ */
+static void rx_add_recipient(void)
+{
+	struct recip *r = calloc(1, sizeof(*r));
+	r->to.s = strdup("test@example.com"); r->to.len = strlen(r->to.s); r->ok = 1;
+	TAILQ_INSERT_TAIL(&head, r, entries);
+	thisrecip = r;
+	goodrcpt = 1;
+}
+
+void rx_run_script(int nf, unsigned char **fp, size_t *fl)
+{
+	static const int errs[] = { EPIPE, ENOSPC, EFBIG, EMSGSIZE, E2BIG, ENOMEM, EIO };
+	if (nf < 4 || fl[1] != 8 || fp[1][2] > 6) { hx_out_str("BADCASE"); return; }
+	/* well-formed script? */
+	for (size_t o = 0; o < fl[2]; ) {
+		if (o + 5 > fl[2]) { hx_out_str("BADCASE"); return; }
+		size_t len = fp[2][o + 3] * 256 + fp[2][o + 4];
+		unsigned op = fp[2][o];
+		if (op < 1 || op > 3 || o + 5 + len > fl[2] || (op == 1 && (len < 4 || strncasecmp((const char *)fp[2] + o + 5, "BDAT", 4))))
+			{ hx_out_str("BADCASE"); return; }
+		o += 5 + len;
+	}
+	const unsigned char *cfg = fp[1];
+	rx_qinit_fail = 0;
+	rx_wfail = cfg[0] * 256 + cfg[1]; if (rx_wfail == 0xffff) rx_wfail = -1;
+	rx_wferr = errs[cfg[2]];
+	rx_rfail = cfg[3]; if (rx_rfail == 0xff) rx_rfail = -1;
+	maxbytes = ((size_t)cfg[4] << 24) | (cfg[5] << 16) | (cfg[6] << 8) | cfg[7];
+	rx_wcount = rx_rcount = 0;
+	rx_stream = fp[3]; rx_slen = fl[3]; rx_spos = 0;
+	rx_cuts = nf > 4 ? fp[4] : NULL; rx_ncuts = nf > 4 ? fl[4] : 0; rx_cut = 0;
+
+	memset(&xmitstat, 0, sizeof(xmitstat));
+	strcpy(xmitstat.remoteip, "192.0.2.42");
+	xmitstat.esmtp = 1;
+	heloname.s = "testcase.example.net"; heloname.len = strlen(heloname.s);
+	TAILQ_INIT(&head);
+	thisrecip = NULL;
+	goodrcpt = 0;
+	comstate = 0x0010;	/* after EHLO */
+	queuefd_data = queuefd_hdr = -1;
+	timeout = 1;
+	rx_prebuffer((const unsigned char *)"", 0);
+
+	hx_out_str("OK");
+	if (setjmp(rx_die) == 0) {
+		for (size_t o = 0; o < fl[2]; ) {
+			unsigned op = fp[2][o];
+			size_t pre = fp[2][o + 1] * 256 + fp[2][o + 2];
+			size_t len = fp[2][o + 3] * 256 + fp[2][o + 4];
+			const unsigned char *pl = fp[2] + o + 5;
+			o += 5 + len;
+			if (rx_buffered() == 0 && pre > 0) {
+				if (pre > 1001) pre = 1001;
+				if (pre > rx_slen - rx_spos) pre = rx_slen - rx_spos;
+				rx_prebuffer(rx_stream + rx_spos, pre);
+				rx_spos += pre;
+			}
+			if (op == 1) {
+				char *line = malloc(len + 1);
+				memcpy(line, pl, len); line[len] = 0;
+				linein.s = line; linein.len = len;
+				int rc;
+				/* qsmtpd.c:smtploop() for the row _C("BDAT", 0x0840, smtp_bdat, -1, 5) */
+				if (!(comstate & 0x0840)) { hx_out_str(" C503"); free(line); continue; }
+				if (linein.len > 510) rc = E2BIG;
+				else if (linein.s[4] != ' ') rc = EINVAL;
+				else {
+					rx_command.state = -1;
+					rc = smtp_bdat();
+					if (!rc && rx_command.state > 0) comstate = rx_command.state;
+				}
+				hx_out_str(" C"); hx_out_str(rc_name(rc));
+				free(line);
+			} else if (op == 2) {
+				/* commands.c:smtp_rset() */
+				if (comstate == 0x0800) queue_reset();
+				if (comstate >= 0x008) { freedata(); comstate = 0x010; }
+				netwrite("250 2.0.0 ok\r\n");
+				hx_out_str(" RSET");
+			} else {
+				if (!(comstate & 0x0018)) { hx_out_str(" C503"); continue; }
+				rx_qinit_fail = len > 0 && (pl[0] & 1);
+				rx_add_recipient();
+				comstate = 0x0040;
+				hx_out_str(" B"); hx_out_int((long)(rx_spos - rx_buffered()));
+			}
 		}
 		hx_out_str(" END");
 	} else hx_out_str(" DIED");
